@@ -88,3 +88,32 @@ func H_C19_httpfs_nil() {
 	l, err := NewLoader(nil)
 	vfAssert(err != nil && l == nil, "nil file system rejected")
 }
+
+// H_C19_httpfs_history: one loader over a file system that changes between queries: the
+// entry's kind (missing, regular file, directory) takes three symbolic values in turn, with
+// a query after each change: every answer reflects the file system as it is at the time of
+// the query, whatever was answered before.
+//
+//gosym:reach checked
+func H_C19_httpfs_history() {
+	s := &stubFS{content: "c"}
+	l, err := NewLoader(s)
+	vfAssert(err == nil, "loader constructed")
+	if err != nil {
+		return
+	}
+	for step := 0; step < 3; step++ {
+		s.kind = ndChoice("kind"+string(rune('0'+step)), 3)
+		ex := l.Exists("/sub/e")
+		vfAssert(ex == (s.kind == 1), "Exists reports the entry as it is now: true exactly for a regular file")
+		if ex {
+			f, err := l.Open("/sub/e")
+			vfAssert(err == nil, "whenever Exists is true, Open succeeds")
+			if err == nil {
+				b, _ := ioutil.ReadAll(f)
+				vfAssert(string(b) == "c", "and yields the content")
+			}
+		}
+	}
+	vfReach("checked")
+}
